@@ -88,6 +88,13 @@ func VP_C19_Traverse() {
 	// the iterator values are functions: ranging over the same value again is
 	// another complete traversal
 	var pre2, post2 []*Node
+	// (abandoned after the first node in between)
+	for range preSeq {
+		break
+	}
+	for range postSeq {
+		break
+	}
 	for nd := range preSeq {
 		pre2 = append(pre2, nd)
 	}
